@@ -381,4 +381,32 @@ PROPS = {
             "C05: MCLMC retry-with-smaller-step is covered by C18; estimator guards against invalid variances by C08",
         ],
     },
+    "C08": {
+        "gen": [],
+        "thm_module": "NutsModel.Thm.C08",
+        "namespace": "NutsModel.C08",
+        "theorems": ["addAll_affine", "addAll_affine_new", "var_nonneg", "var_eq_zero_iff", "mean_is_average", "gaussian_scale_exact",
+                     "adapt_none", "adapt_exact_of_foreground", "adapt_exact_on_gaussian", "adapt_none_below_three",
+                     "adapt_exact_of_background", "adapt_exact_after_switch", "scale_stays_positive", "invalid_keeps_previous",
+                     "invalid_keeps_previous_draw_zero", "invalid_keeps_previous_grad_zero", "invalid_keeps_previous_neg",
+                     "init_scale_positive", "init_positive", "spd_mean_solves_riccati", "gaussian_is_fixed_point"],
+        "harness": "C08",
+        "level": "proof",
+        "rule": ("A. the REAL DiagAdaptStrategy + DiagMassMatrix and LowRankMassMatrixStrategy + LowRankMassMatrix driven through the hook "
+                 "EstimatorProbe exactly as GlobalStrategy drives them (init, update_estimators with is_good flags, switch, adapt), dimension 1..50 "
+                 "(low-rank 1..12), with (i) exact Gaussian windows: means and standard deviations over a condition number up to 1e12, any "
+                 "number >= 3 and placement of draws, rejected draws interleaved, window switches; (ii) degenerate windows: per coordinate constant "
+                 "draws, zero gradients, constant both, huge/tiny magnitudes, NaN, +-inf, signed zeros, 1e300/5e-324 entries. Direct oracle after "
+                 "every adapt: every std and 1/std finite and > 0, log-determinant finite, low-rank eigenvalue factors finite and > 0, no update "
+                 "below 3 samples, and on Gaussian windows std = sigma and mean = mu to rounding (tolerance scaled by |mu|/sigma). Every diagonal run "
+                 "is replayed bit for bit (std, 1/std, mean of every coordinate after every adapt, including the NaN/inf cases) by "
+                 "Model/MassMatrix.lean at Float. B. real chains (Diag and LowRank NUTS, public API) on diagonal / rank-one-correlated Gaussians: "
+                 "after warmup fisher_distance = |grad_y + y|^2 <= 1e-10 (1+|y|^2) on every draw and no divergences. "
+                 "distinct_nontrivial = scenarios in which at least one adapt changed the transformation + chain runs."),
+        "trusted": [
+            "C08: proved at the reals for the per-coordinate model: the running estimator is affine-equivariant, its variance is zero iff all samples are equal, hence for ANY >= 3 not-all-equal draws of a Gaussian the update returns exactly (sigma, 1/sigma, mu); scales stay > 0 and within [sqrt lo, sqrt hi] or unchanged for arbitrary real inputs; invalid ratios keep the previous value",
+            "C08: NaN / infinity behaviour is not expressible at the reals: it is carried by the bit-exact Float replay of the same model definitions against the real estimator on the special-value windows, and by the direct oracle",
+            "C08: the low-rank pipeline (faer SVD / QR / eigendecompositions) is not modelled: proved is only the algebra of its SPD-mean formula (X B X = A; the Gaussian covariance is a solution), its behaviour is measured (part A degenerate windows, part B exactness through fisher_distance); uniqueness of the SPD solution and the effect of the gamma regularisation are not proved",
+        ],
+    },
 }
